@@ -75,6 +75,9 @@ PROPS["C04"] = {
           bound="12-byte header (all fields symbolic), 4 payload bytes, padding 2; fixed keys; hmac/aes/ctr substitutes", timeout=900),
         K("protect layout SHA1_32 (empty payload)", "c04_protect_layout_sha32_p0", "thorough", "bounded", ["SrtpContext::protect"],
           "same, 4-byte tag, empty body skips the cipher", bound="12-byte header, empty payload", timeout=900),
+        K("protect layout SHA1_32 (empty payload), callees by contract", "c04_protect_layout_sha32_p0_modular", "quick", "bounded", ["SrtpContext::protect"],
+          "same layout obligation with estimate_roc and update replaced by their verified contracts (kani::stub_verified): the caller is checked against the callee contracts, not their bodies",
+          bound="12-byte header, empty payload", timeout=900),
         K("protect layout NULL cipher (4 B payload)", "c04_protect_layout_null_p4", "thorough", "bounded", ["SrtpContext::protect"],
           "same, body in clear", bound="12-byte header, 4 payload bytes", timeout=900),
         K("protect∘unprotect round trip AES_CM_128_HMAC_SHA1_80 (2 B payload, 2 B padding)", "c04_roundtrip_sha80_p2_pad2", "quick", "bounded",
@@ -158,7 +161,15 @@ PROPS["C05"] = {
           "Err(PacketTooShort), state unchanged", bound="length 13 (< 10+4), profile Aes128Sha1_80"),
         K("unprotect_rtcp short input (GCM, 19 B)", "c05_unprotect_rtcp_short_gcm_19", "quick", "bounded", ["SrtpContext::unprotect_rtcp"],
           "Err(PacketTooShort), state unchanged", bound="length 19 (< 16+4), profile AeadAes128Gcm"),
-        K("unprotect HMAC-80: frame + tag over header||body||ROC (body 10 B, fixed key)", "c05_unprotect_hmac80_body10_fixedkey", "quick", "bounded",
+        K("estimate_roc contract (callee of unprotect)", "c04_estimate_roc_contract", "quick", "proof", ["SrtpContext::estimate_roc"],
+          "RFC 3711 3.3.1 value AND frame: estimating (which runs before authentication) does not touch rollover counter, last sequence or SRTCP index"),
+        K("update contract (callee of unprotect)", "c04_update_contract", "quick", "proof", ["SrtpContext::update"],
+          "writes only rollover_counter/last_sequence, to max(old index, new index)"),
+        K("unprotect HMAC-80: frame + tag, callees by contract (body 10 B, fixed key)", "c05_unprotect_hmac80_body10_fixedkey_modular", "quick", "bounded",
+          ["SrtpContext::unprotect", "RtpHeader::write_to", "constant_time_eq"],
+          "Err => crypto state unchanged; Ok => body tail == MAC(k, header image || body || roc_be)[..10]; estimate_roc/update replaced by their verified contracts (kani::stub_verified)",
+          bound="12-byte header (all fields symbolic), body = 0 payload + 10 tag, one concrete key; " + HM, timeout=900),
+        K("unprotect HMAC-80: frame + tag over header||body||ROC (body 10 B, fixed key)", "c05_unprotect_hmac80_body10_fixedkey", "thorough", "bounded",
           ["SrtpContext::unprotect", "SrtpContext::estimate_roc", "SrtpContext::update", "RtpHeader::write_to", "constant_time_eq"],
           "Err => crypto state unchanged; Ok => body tail == MAC(k, header image || body || roc_be)[..10] with roc = RFC 3711 estimate, state advanced per post_update",
           bound="12-byte header (all fields symbolic), body = 0 payload + 10 tag, one concrete key; " + HM, timeout=900),
